@@ -7,7 +7,7 @@
    map-like or mixed body, nested to any depth.
    Not modelled (oracle on the real code only): the derive macro's two reading paths and its writer,
    delegated (scalar) record bodies, the Recon path; see MANIFEST (partial). *)
-From SwimV Require Import Model.MsgPack Proofs.MsgPackProofs Proofs.MsgPackRecordProofs.
+From SwimV Require Import Model.MsgPack Proofs.MsgPackProofs Proofs.MsgPackRecordProofs Proofs.MsgPackTruncProofs.
 Open Scope N_scope.
 
 (* every scalar value, of any size the format can carry, is read back unchanged from what was written,
@@ -34,6 +34,21 @@ Proof. exact record_roundtrip. Qed.
 (* different model values never share an encoding *)
 Theorem C16_record_encoding_injective : forall a b, WFV a -> WFV b -> enc a = enc b -> a = b.
 Proof. exact enc_injective. Qed.
+
+(* the encoding of any model value cut short anywhere - in a header, a name, a key, inside a nested record -
+   is reported as incomplete: it is never read as some value and never rejected as malformed *)
+Theorem C16_record_truncated_is_incomplete : forall v, WFV v ->
+  forall fuel p q, (depth v <= fuel)%nat -> p ++ q = enc v -> q <> [] -> dec fuel p = VIncomplete.
+Proof. exact record_truncated. Qed.
+
+(* no value's encoding is the beginning of another's: a reader never stops early inside a longer value *)
+Theorem C16_record_encoding_prefix_free : forall a b q, WFV a -> WFV b -> enc a ++ q = enc b -> q = [].
+Proof. exact enc_prefix_free. Qed.
+
+Example C16_truncated_nonvacuous :
+  let v := VR [([97], VS (MPos 1))] [(None, VS (MStr [104; 105])); (Some (VS (MPos 2)), VR [] [(None, VS MNil)])] in
+  forallb (fun k => match dec 3 (firstn k (enc v)) with VIncomplete => true | _ => false end) (seq 0 (length (enc v))) = true.
+Proof. exact truncated_witness. Qed.
 
 Example C16_record_nonvacuous :
   let v := VR [([97], VS (MPos 1))] [(None, VS (MStr [104; 105])); (Some (VS (MPos 2)), VR [] [(None, VS MNil)])] in
